@@ -124,6 +124,17 @@ static std::string szCfgTok(Interpreter& in) {
 	return s;
 }
 
+// every field of an event that Event.cpp writes into the state string, for the field-by-field comparison of the
+// pending events of the original and of the resumed interpreter (implementation against itself)
+static std::string szEventFields(const Event& e) {
+	std::string s = hex(e.name) + "/" + std::to_string((int)e.eventType) + "/" + (e.hideSendId ? "h1" : "h0") + "/" +
+	                hex(e.sendid) + "/" + hex(e.origintype) + "/" + hex(e.invokeid) + "/" + hex(Data(e.data).asJSON()) + "/";
+	for (auto& n : e.namelist) s += hex(n.first) + "=" + hex(Data(n.second).asJSON()) + "+";
+	s += "/";
+	for (auto& q : e.params) s += hex(q.first) + "=" + hex(Data(q.second).asJSON()) + "+";
+	return s;
+}
+
 // the external queue, unchanged, with a read-only view of its content
 class PeekQueue : public BasicEventQueue {
 public:
@@ -132,6 +143,12 @@ public:
 		std::lock_guard<std::recursive_mutex> lock(_mutex);
 		std::string s;
 		for (auto& e : _queue) { if (s.size()) s += ","; s += hex(e.name); }
+		return s.size() ? s : "-";
+	}
+	std::string full() {
+		std::lock_guard<std::recursive_mutex> lock(_mutex);
+		std::string s;
+		for (auto& e : _queue) { if (s.size()) s += ","; s += szEventFields(e); }
 		return s.size() ? s : "-";
 	}
 };
@@ -175,6 +192,17 @@ public:
 			long rem = (long)(p.due.tv_sec - now.tv_sec);
 			s += hex(p.name) + ":" + std::to_string(rem);
 		}
+		return s.size() ? s : "-";
+	}
+	std::string full() {
+		std::vector<std::pair<std::string, std::string> > v;
+		{
+			std::lock_guard<std::recursive_mutex> lock(_mutex);
+			for (auto& kv : _callbackData) v.push_back(std::make_pair(kv.first, szEventFields(kv.second.userData)));
+		}
+		std::sort(v.begin(), v.end());
+		std::string s;
+		for (auto& x : v) { if (s.size()) s += ","; s += hex(x.first) + "~" + x.second; }
 		return s.size() ? s : "-";
 	}
 	// BasicDelayedEventQueue::serialize() and stop() lose their wake-up when the timer thread has not yet entered
@@ -230,6 +258,7 @@ struct Machine {
 		in->addMonitor(mon);
 	}
 	std::string queues() { return eq->names() + ";" + dq->view(); }
+	std::string queuesFull() { return eq->full() + ";" + dq->full(); }
 	void release() { vd_reap(in); in = NULL; }   // the monitor object stays allocated: the reaper may still call it
 };
 
@@ -342,6 +371,7 @@ static std::string cmd_serialize_resume(const std::vector<std::string>& a) {
 	SZ_TRY(snap = o->in->serialize(), "SERFAIL", o->release());
 	out += " | SNAP " + hex(snap);
 	out += " | OQ " + o->queues();
+	out += " | OQF " + o->queuesFull();
 
 	// the original goes on
 	int fuelO = fuel, fuelR = fuel;
@@ -364,6 +394,7 @@ static std::string cmd_serialize_resume(const std::vector<std::string>& a) {
 	Machine* r = new Machine(xml, engine);
 	SZ_TRY(r->in->deserialize(snap), "DESERFAIL", r->release());
 	out += " | RQ " + r->queues();
+	out += " | RQF " + r->queuesFull();
 	bool seenInitR = true;   // deserialize() has initialised the interpreter
 	more = true;
 	if (s == USCXML_IDLE) feedAfterIdle(*r, a, nextR, more);
